@@ -382,6 +382,93 @@ fn csystem_case(n: usize, gi: usize, tol: f64, max_iter: usize, exact_jac: bool,
     Ok(())
 }
 
+/// affine systems T (x - r) with dyadic T and roots of size 1.5e3 .. 1.2e4 (well inside |x| < 2^27, where the absolute difference step
+/// 1e-8 still works): a finite-difference Jacobian formed with any step much smaller than 1e-8 (say the tolerance 1e-12) is 10..80 %
+/// wrong there, and a pivot search that mishandles a NEGATIVE diagonal entry with exact zeros below it (triangular T) produces NaN.
+/// kind 0: upper triangular cascade with a negative diagonal; 1: lower triangular; 2: the dense dominant matrix of the other families
+fn large_root_affine_case(n: usize, kind: usize, complex: bool, exact_jac: bool) -> Result<(), String> {
+    let mut t = vec![vec![0.0f64; n]; n];
+    for i in 0..n {
+        for j in 0..n {
+            let v = if (i + j) % 2 == 0 { 0.5 } else { -0.25 };
+            match kind {
+                0 if j > i => t[i][j] = v,
+                1 if j < i => t[i][j] = v,
+                _ => {}
+            }
+        }
+        t[i][i] = if i % 2 == 0 { -2.0 } else { 1.5 };
+    }
+    if kind == 2 {
+        t = dmat(n);
+    }
+    let rr = [1536.0, -3000.0, 12288.0, -2048.0, 5120.0, -1792.0];
+    let ri = [1024.0, -512.0, 0.0, 4096.0, -2560.0, 768.0];
+    let tol = 1e-12;
+    let max_iter = 8;
+    if !complex {
+        let r: Vec<f64> = rr[..n].to_vec();
+        let x0: Vec<f64> = (0..n).map(|i| r[i] + if i % 2 == 0 { 0.5 } else { -0.25 }).collect();
+        let f = |v: Vec64| -> Vec64 { Vector::create((0..n).map(|i| (0..n).map(|j| t[i][j] * (v[j] - r[j])).sum::<f64>()).collect()) };
+        let jac = |_v: Vec64| -> Mat64 {
+            let mut m = Mat64::new(n, n, 0.0);
+            for i in 0..n {
+                for j in 0..n {
+                    m[(i, j)] = t[i][j];
+                }
+            }
+            m
+        };
+        let mut nw = Newton::<Vec64>::new(Vector::create(x0));
+        nw.tolerance(tol);
+        nw.iterations(max_iter);
+        let res = if exact_jac { nw.solve_jacobian(&f, &jac) } else { nw.solve(&f) };
+        match res {
+            Ok(v) => {
+                let err = (0..n).map(|i| (v[i] - r[i]).abs()).fold(0.0, f64::max);
+                ensure!(err <= 1e-9, "Ok but ||x - root||_inf = {:e}; x = {:?}", err, v.vec);
+                Ok(())
+            }
+            Err(v) => Err(format!("no success within {} iterations from a guess 0.5 away from the root {:?}: Err({:?})", max_iter, r, v.vec)),
+        }
+    } else {
+        let r: Vec<Cmplx> = (0..n).map(|i| Cmplx::new(rr[i], ri[i])).collect();
+        let x0: Vec<Cmplx> = (0..n).map(|i| Cmplx::new(rr[i] + 0.5, ri[i] - 0.25)).collect();
+        // T (x - r) with real dyadic T: componentwise real arithmetic, no crate complex operators in the closure
+        let f = |v: Vector<Cmplx>| -> Vector<Cmplx> {
+            Vector::create((0..n).map(|i| {
+                let (mut re, mut im) = (0.0, 0.0);
+                for j in 0..n {
+                    re += t[i][j] * (v[j].real - r[j].real);
+                    im += t[i][j] * (v[j].imag - r[j].imag);
+                }
+                Cmplx::new(re, im)
+            }).collect())
+        };
+        let jac = |_v: Vector<Cmplx>| -> Matrix<Cmplx> {
+            let mut m = Matrix::<Cmplx>::new(n, n, Cmplx::new(0.0, 0.0));
+            for i in 0..n {
+                for j in 0..n {
+                    m[(i, j)] = Cmplx::new(t[i][j], 0.0);
+                }
+            }
+            m
+        };
+        let mut nw = Newton::<Vector<Cmplx>>::new(Vector::create(x0));
+        nw.tolerance(tol);
+        nw.iterations(max_iter);
+        let res = if exact_jac { nw.solve_jacobian(&f, &jac) } else { nw.solve(&f) };
+        match res {
+            Ok(v) => {
+                let err = (0..n).map(|i| (v[i].real - r[i].real).hypot(v[i].imag - r[i].imag)).fold(0.0, f64::max);
+                ensure!(err <= 1e-9, "Ok but ||x - root||_inf = {:e}; x = {:?}", err, v.vec);
+                Ok(())
+            }
+            Err(v) => Err(format!("no success within {} iterations from a guess 0.56 away from the root: Err({:?})", max_iter, v.vec)),
+        }
+    }
+}
+
 // ------------------------------------------------------------------------------------------------------
 // E2: histories of configuration changes and solves on ONE Newton object (rebuilt by replaying the history): every solve
 // must equal, bit for bit, the solve of a freshly constructed object with the model's configuration
@@ -1050,6 +1137,16 @@ fn main() {
             },
         );
     }
+    ctx.lattice(
+        "affine systems with roots of size 1.5e3..1.2e4: dimension 1..6 x {upper triangular with negative diagonal, lower triangular, dense dominant} x {real, complex} x {finite-difference, supplied} Jacobian, tol 1e-12, 8 iterations",
+        6 * 3 * 4,
+        |idx| format!("n={} kind={} variant={}", 1 + idx / 12, (idx / 4) % 3, idx % 4),
+        |idx, acc| {
+            let (n, kind, var) = (1 + (idx / 12) as usize, ((idx / 4) % 3) as usize, idx % 4);
+            acc.nontriv("system with roots of size >= 1.5e3");
+            judge(acc, idx, || format!("large-root affine n={} kind={} complex={} supplied={}", n, kind, var >= 2, var % 2 == 1), || large_root_affine_case(n, kind, var >= 2, var % 2 == 1));
+        },
+    );
     let perc2 = (4 * TOLS.len() * ITERS.len() * 2) as u64;
     ctx.lattice(
         "complex systems: dimension 1..6 x 4 guesses x 5 tolerances x 7 iteration limits x {finite-difference, supplied} Jacobian",
